@@ -38,9 +38,12 @@ def i12(cx):
         fn = F.impl_fn(im, 'poll')
         g = cx.graph(fn['key'])
         label = cx.label(fn)
+        FUR = roles.field_where(cx, tag, lambda t, ti: F.mentions(ti, lambda x: x['k'] == 'dyn' and any(tr['p'].endswith('Future') for tr in x['tr'])), 'timer future')
+        INTERVAL = roles.field_where(cx, tag, lambda t, ti: t['k'] == 'adt' and t['p'] == 'std::time::Duration', 'period')
+        SEQ = roles.field_where(cx, tag, lambda t, ti: t['s'] == 'usize', 'sequence counter')
         tasks = [x for x in g.nodes if x['kind'] == 'call' and x['name'] == '<fnptr>' and not x['ctx']]
         fur_polls = {strip(x['value']) for x in g.nodes if x['kind'] == 'call' and x['name'].rsplit('::', 1)[-1] in ('poll_unpin', 'poll') and x['args']
-                     and access_path(x['args'][0])[1][-1:] == ['fur']}
+                     and access_path(x['args'][0])[1][-1:] == [FUR]}
         # I2
         def step(st, nd, lab):
             if st.startswith('BAD'):
@@ -55,13 +58,13 @@ def i12(cx):
                     return 'BAD:' + st
                 return 'ticked'
             if nd['kind'] in ('call', 'enter') and nd['name'].endswith('new_timer') and st == 'ticked':
-                if nd['args'] and access_path(nd['args'][0])[1][-1:] == ['interval']:
+                if nd['args'] and access_path(nd['args'][0])[1][-1:] == [INTERVAL]:
                     return 'timer'
                 return 'BAD:timer-not-interval'
             if st == 'timer':
-                if nd['kind'] == 'call' and nd['name'] in ('std::mem::swap', 'std::mem::replace') and any(access_path(a)[1][-1:] == ['fur'] for a in nd['args']):
+                if nd['kind'] == 'call' and nd['name'] in ('std::mem::swap', 'std::mem::replace') and any(access_path(a)[1][-1:] == [FUR] for a in nd['args']):
                     return 'armed'
-                if nd['kind'] == 'assign' and access_path(nd['lhs'])[1][-1:] == ['fur']:
+                if nd['kind'] == 'assign' and access_path(nd['lhs'])[1][-1:] == [FUR]:
                     return 'armed'
             return st
         reached, pred = explore(g, 'armed', step)
@@ -74,16 +77,16 @@ def i12(cx):
         else:
             res.append(Finding(ID, 'I2', label, True, 'tick only after Ready(timer); every iteration arms new_timer(self.interval) into self.fur', fn['span']))
         # I1
-        writes = [x for x in g.nodes if x['kind'] == 'assign' and access_path(x['lhs'])[1][-1:] == ['seq']]
+        writes = [x for x in g.nodes if x['kind'] == 'assign' and access_path(x['lhs'])[1][-1:] == [SEQ]]
         ok = bool(writes) and bool(tasks)
         msg = 'seq passed to the task; seq := seq + 1 only after the task returned true'
         for x in tasks:
-            if not any(access_path(a)[1][-1:] == ['seq'] for a in x['args']):
+            if not any(access_path(a)[1][-1:] == [SEQ] for a in x['args']):
                 ok = False
                 msg = 'the task is not called with self.seq'
         for w in writes:
             r = strip(w['rhs'])
-            inc = mentions(r, lambda e: e[0] == 'bin' and e[1].startswith('Add') and access_path(e[2])[1][-1:] == ['seq'] and const_int(e[3]) == 1)
+            inc = mentions(r, lambda e: e[0] == 'bin' and e[1].startswith('Add') and access_path(e[2])[1][-1:] == [SEQ] and const_int(e[3]) == 1)
             if not inc:
                 ok = False
                 msg = 'seq is written by something other than seq + 1: %s' % render(r)[:60]
@@ -119,8 +122,10 @@ def i12(cx):
             for x in aggs:
                 a = strip(x['rhs'])
                 names = a[5]
-                if 'seq' in names:
-                    v = strip(a[3][names.index('seq')])
+                SEQ = roles.field_where(cx, 'scheduler::RepeatTask', lambda t, ti: t['s'] == 'usize', 'sequence counter')
+                FUR = roles.field_where(cx, 'scheduler::RepeatTask', lambda t, ti: F.mentions(ti, lambda x: x['k'] == 'dyn' and any(tr['p'].endswith('Future') for tr in x['tr'])), 'timer future')
+                if SEQ in names:
+                    v = strip(a[3][names.index(SEQ)])
                     ok = const_int(v) == 0
             res.append(Finding(ID, 'I1', cx.label(fn), ok, 'seq starts at 0' if ok else 'RepeatTask::new does not start seq at 0', fn['span']))
             okf = False
@@ -128,8 +133,8 @@ def i12(cx):
             for x in aggs:
                 a = strip(x['rhs'])
                 names = a[5]
-                if 'fur' in names:
-                    v = strip(a[3][names.index('fur')])
+                if FUR in names:
+                    v = strip(a[3][names.index(FUR)])
                     okf = v[0] == 'call' and v[1].endswith('new_timer') and bool(v[2]) and strip(v[2][0])[0] == 'arg'
                     if not okf:
                         why = 'the first timer is not new_timer(<period>) armed when the task is created (at subscription): fur = %s — the first tick would be due one period after the first poll, not after subscription' % render(v)[:60]
@@ -143,13 +148,15 @@ def i3(cx):
     n = 0
     for im in F.impls_of('futures::Future'):
         tag = roles.impl_tag(cx, im)
-        if tag not in ('observable::from_stream::StreamObserverFuture', 'observable::from_stream_result::TryStreamObserverFuture'):
-            continue
-        n += 1
         fn = F.impl_fn(im, 'poll')
+        if fn is None or not fn['file'].startswith('src/observable/'):
+            continue
         g = cx.graph(fn['key'])
         label = cx.label(fn)
         polls = [x for x in g.nodes if x['kind'] == 'call' and x['name'].rsplit('::', 1)[-1] in ('poll_next', 'try_poll_next', 'poll_next_unpin')]
+        if not polls or not any(down_method(x) == 'next' for x in g.nodes):
+            continue   # a stream driver polls a stream and relays its items downstream
+        n += 1
         pv = {strip(x['value']) for x in polls}
         terms = [x for x in g.nodes if down_method(x) in ('complete', 'error')]
         ok = bool(polls) and bool(terms)
